@@ -202,6 +202,7 @@ def run(chk: Check) -> None:
     run_count_guard_agreement(chk, ix)
     run_shared_validators(chk, ix)
     run_overload_helpers_thread_context(chk, ix)
+    run_string_annotation_attrs(chk, ix)
 
     r3 = chk.rule("R14.3", "Errors.report clamps end_line >= line and (same line) end_column > column before the ErrorInfo is built", floor=2)
     rp = ix.func("mypy.errors.Errors.report")
@@ -654,3 +655,48 @@ def run_overload_helpers_thread_context(chk: Check, ix) -> None:
                 r.violation(key, f.loc(bad), f"`{norm(bad)[:90]}` leaves {sorted(set(defaulted) - (set(params[: len(bad.args)]) | {k.arg for k in bad.keywords}))} at its default: inside an `elif` chain the helper no longer knows the name of the overload being collected, so the undecorated implementation in an `elif` branch is not merged (no-overload-impl / no-redef under this parser only)")
     if n < 2:
         raise AnalysisError(f"only {n} recursive conditional-overload helpers with a defaulted context parameter found")
+
+
+def run_string_annotation_attrs(chk: Check, ix) -> None:
+    """R14.12: what the default parser records about a type written as a string, the native parser records too."""
+    r = chk.rule("R14.12", "fastparse.parse_type_string records on the type it returns how the annotation was spelled (`node.original_str_expr`, `node.original_str_fallback`, for the classes named in its isinstance test); typeanal.analyze_literal_param needs them to read `Literal[\"r | w\"]` as a string and not as a union of names. nativeparse.read_type builds the same classes from the serialized tree: in the branch that constructs each of them, every one of those attributes is passed to the constructor or assigned on the constructed object", floor=2)
+    fp = ix.func("mypy.fastparse.parse_type_string")
+    attrs, classes = set(), set()
+    for i in ast.walk(fp.node):
+        if isinstance(i, ast.If):
+            for c in ast.walk(i.test):
+                if isinstance(c, ast.Call) and norm(c.func) == "isinstance" and len(c.args) == 2 and norm(c.args[0]) == "node":
+                    names = [e.id for e in (c.args[1].elts if isinstance(c.args[1], ast.Tuple) else [c.args[1]]) if isinstance(e, ast.Name)]
+                    sets = {t.attr for a in i.body if isinstance(a, ast.Assign) for t in a.targets if isinstance(t, ast.Attribute) and norm(t.value) == "node"}
+                    if sets:
+                        classes |= set(names)
+                        attrs |= sets
+    if len(attrs) < 2 or not classes:
+        raise AnalysisError(f"parse_type_string: attributes {sorted(attrs)} on classes {sorted(classes)}")
+    rt = ix.func("mypy.nativeparse.read_type")
+    for cls in sorted(classes):
+        ctor = [c for c in ast.walk(rt.node) if isinstance(c, ast.Call) and isinstance(c.func, ast.Name) and c.func.id == cls]
+        key = f"nativeparse.read_type sets {sorted(attrs)} on the {cls} it builds"
+        if not ctor:
+            r.violation(key, rt.loc(), f"read_type never constructs {cls}")
+            continue
+        ok_any = False
+        for c in ctor:
+            given = {k.arg for k in c.keywords}
+            par = rt.module.parents()
+            st = c
+            while not isinstance(st, ast.stmt):
+                st = par[st]
+            var = norm(st.targets[0]) if isinstance(st, ast.Assign) and len(st.targets) == 1 and isinstance(st.targets[0], ast.Name) else None
+            if var:
+                for a in ast.walk(rt.node):
+                    if isinstance(a, ast.Assign):
+                        for t in a.targets:
+                            if isinstance(t, ast.Attribute) and norm(t.value) == var:
+                                given.add(t.attr)
+            if attrs <= given:
+                ok_any = True
+        if ok_any:
+            r.ok(key, rt.loc(ctor[0]))
+        else:
+            r.violation(key, rt.loc(ctor[0]), f"the branch building {cls} does not set all of {sorted(attrs)}: under --native-parser a `Literal[\"a|b\"]` parameter is analysed as the union `a | b` (`Name \"a\" is not defined`, the type becomes Any) while the default parser yields Literal['a|b']")
